@@ -59,8 +59,8 @@ def hosts():
     return [("empty", empty), ("wired", wired), ("holed", holed)]
 
 
-def check_insert(B, A, parent_idx, ctx):
-    """Inserts B under A[parent_idx]; returns fails."""
+def check_insert(B, A, parent_idx, ctx, omit_parent=False):
+    """Inserts B under A[parent_idx] (omit_parent: through the default `parent=None`, which means A's root); returns fails."""
     from hugr.hugr.node_port import Node
 
     fails = []
@@ -72,7 +72,7 @@ def check_insert(B, A, parent_idx, ctx):
     a_nodes, a_links = dump(A)
     b_children = {n.idx: [c.idx for c in B.children(n)] for n in B}
     try:
-        mapping = A.insert_hugr(B, Node(parent_idx))
+        mapping = A.insert_hugr(B) if omit_parent else A.insert_hugr(B, Node(parent_idx))
     except Exception as e:  # noqa: BLE001
         return [(f"insert:raised:{type(e).__name__}", f"insert_hugr raised {type(e).__name__}: {e} | {ctx}")]
     m = {k.idx: v.idx for k, v in mapping.items()}
@@ -163,6 +163,11 @@ def _work(args):
             n += 1
             for sig, msg in check_insert(B, A, p, f"host={hname} parent={p} B-history={hist}"):
                 fails.append((sig, msg, {"store": hist, "host": hname, "parent": p, "tier": tier}))
+        # the documented default: no parent given = under the root of the host
+        B, A = e1._prefix(m, hist).h, hf()
+        n += 1
+        for sig, msg in check_insert(B, A, A.root.idx, f"host={hname} parent=default B-history={hist}", omit_parent=True):
+            fails.append((sig + ":default-parent", msg, {"store": hist, "host": hname, "parent": None, "tier": tier}))
     return n, fails[:20]
 
 
@@ -452,4 +457,6 @@ def replay(case) -> list[Violation]:
     m = c04.Machine(**b)
     B = e1._prefix(m, case["store"]).h
     A = dict(hosts())[case["host"]]()
+    if case["parent"] is None:
+        return [Violation(s + ":default-parent", mm, case) for s, mm in check_insert(B, A, A.root.idx, f"host={case['host']} parent=default B-history={case['store']}", omit_parent=True)]
     return [Violation(s, mm, case) for s, mm in check_insert(B, A, case["parent"], f"host={case['host']} parent={case['parent']} B-history={case['store']}")]
